@@ -67,6 +67,17 @@ def prove_int(eng, atoms, acc=None):
         return 'proved'
     t = time.time()
     r = eng.isolver.check(z3.Not(z3.And(*lits)) if len(lits) > 1 else z3.Not(lits[0]))
+    if r == z3.sat:
+        # keep the counter-model: a model of the integer path condition that violates this VC (used by the concretiser)
+        try:
+            m = eng.isolver.model()
+            cex = {v: m.eval(x, model_completion=True).as_long() for v, x in eng.lin.iv.items()}
+            for v, k in enumerate(VKIND):
+                if k == 'int' and v not in cex:
+                    cex[v] = 0
+            eng.int_cex = cex
+        except Exception:
+            pass
     if acc is not None:
         acc.inc('vc_int_queries'); acc.inc('vc_int_t', time.time() - t)
     return 'proved' if r == z3.unsat else ('unknown' if r == z3.unknown else 'unproved')
@@ -209,7 +220,7 @@ def split_pairs(pairs):
 
 
 def prove(eng, goals=(), goal_atoms=(), rounds=2, maxdeg=8, extra_hyps=(), use_pc=True, timeout_ms=30000,
-          max_products=60000, acc=None, label='vc', ineq_multipliers=False, extra_atoms=(), pairs=()):
+          max_products=60000, acc=None, label='vc', ineq_multipliers=False, extra_atoms=(), pairs=(), record=True):
     """
     goals: polynomials (Sym or dict) that must equal 0;  goal_atoms: Atoms that must hold.
     Returns 'proved' | 'unproved' | 'unknown'.
@@ -289,6 +300,11 @@ def prove(eng, goals=(), goal_atoms=(), rounds=2, maxdeg=8, extra_hyps=(), use_p
         res = 'proved' if r == 'unsat' else ('unknown' if r == 'unknown' else 'unproved')
         if acc is not None and len(prods) + len(hyps) >= HARD_LIMIT_ASSERTIONS:
             acc.inc('vc_cli_queries')
+    if res != 'proved' and record:
+        # remembered for counterexample-guided concretisation (concretize.goal_directed)
+        if not hasattr(eng, 'failed_goals'):
+            eng.failed_goals = []
+        eng.failed_goals.append(dict(goals=nz + [d for d in pdiff if d], atoms=atoms, label=label))
     if acc is not None:
         acc.inc(label + '_queries', 1 if neg else 0); acc.inc(label + '_' + res)
         acc.inc('vc_t_solver', dt); acc.inc('vc_t_build', t1 - t0); acc.inc('vc_products', len(prods))
@@ -304,6 +320,7 @@ def prove_escalating(eng, goals=(), goal_atoms=(), rounds=(1, 2, 3), acc=None, l
     from .engine import Acc
     res = 'unproved'
     goals = list(goals)
+    n_failed0 = len(getattr(eng, 'failed_goals', []))
     for k_, r in enumerate(rounds):
         if k_ > 0 and kw.get('pairs'):
             kw = dict(kw)
@@ -324,6 +341,11 @@ def prove_escalating(eng, goals=(), goal_atoms=(), rounds=(1, 2, 3), acc=None, l
             break
         if acc is not None and k_ + 1 < len(rounds):
             acc.inc(label + '_escalations')
+    if hasattr(eng, 'failed_goals') and len(eng.failed_goals) > n_failed0:
+        last = eng.failed_goals[-1]
+        del eng.failed_goals[n_failed0:]
+        if res != 'proved':
+            eng.failed_goals.append(last)
     if acc is not None:
         acc.inc(label + '_' + res)
     return res
@@ -334,7 +356,7 @@ def canary(eng, goal, rounds=2, **kw):
     g = S(goal)
     shifted = Sym(padd(g.t, pconst(1)))
     kw.pop('acc', None)
-    return prove(eng, [shifted], rounds=rounds, **kw) != 'proved'
+    return prove(eng, [shifted], rounds=rounds, record=False, **kw) != 'proved'
 
 
 def prove_within_tolerance(eng, goals, input_vars, bound=1000, eps=Fraction(1, 10**9), acc=None, label='vc_tol'):
@@ -418,6 +440,6 @@ def forced_zero_inputs(eng, var_indices, acc=None):
     """input variables that are provably zero on this path (used to build faithful concrete replays)"""
     out = []
     for v in var_indices:
-        if prove(eng, [{((v, 1),): 1}], rounds=2, timeout_ms=5000) == 'proved':
+        if prove(eng, [{((v, 1),): 1}], rounds=2, timeout_ms=5000, record=False) == 'proved':
             out.append(v)
     return out
